@@ -27,7 +27,10 @@ TypeCat == [a |-> <<>>, b |-> <<>>, h |-> <<>>,
             o |-> <<"missing-in-or", "value-in-or">>,                  \* two `or` rule-sets, each with its own defect
             x |-> <<"value", "value">>,                                \* two properties whose examples break their rules
             g |-> <<"inherits-non-object">>,                           \* allOf of a scalar type: refused while merging
-            f |-> <<"rule-not-admitted", "rule-not-admitted">>]        \* two rules a format type does not admit, on one node
+            f |-> <<"rule-not-admitted", "rule-not-admitted">>,        \* two rules a format type does not admit, on one node
+            i |-> <<"rule-not-admitted", "rule-not-admitted", "rule-not-admitted">>,  \* the same on a property of an object type
+            j |-> <<"inherits-defective-or-missing">>,                 \* an heir of i (allOf): i's properties are copied into it
+            p |-> <<"missing-in-or">>]                                 \* like the first defect of o, in a type of its own
 TypeIds == DOMAIN TypeCat
 \* root mentions no type / @a / every registered name / has two defective choices of its own
 Roots == {"plain", "refs-a", "refs-all", "two-choices"}
@@ -45,7 +48,7 @@ Register(t) == /\ ~done /\ t \notin Range(order) /\ Len(order) < MaxTypes
 
 Broken(S) == {t \in S : TypeCat[t] # <<>>}
 \* total order on names used by the sorted walk (internal types of the root come first)
-Rank == [a |-> 1, b |-> 2, c |-> 3, f |-> 4, g |-> 5, h |-> 6, m |-> 7, o |-> 8, r |-> 9, v |-> 10, w |-> 11, x |-> 12]
+Rank == [a |-> 1, b |-> 2, c |-> 3, f |-> 4, g |-> 5, h |-> 6, i |-> 7, j |-> 8, m |-> 9, o |-> 10, p |-> 11, r |-> 12, v |-> 13, w |-> 14, x |-> 15]
 Least(S) == CHOOSE t \in S : \A u \in S : Rank[t] <= Rank[u]
 Place(t, i) == <<t, i>>
 
